@@ -286,7 +286,7 @@ def run(ctx):
         for x in mm:
             ctx.violation("C11:commuting:%s" % x["what"], "%s: %s" % (cid, x), {"commuting": list(j)})
     # histories of compute / get_state (Stepper.tla, kind gibbs)
-    consts = {"Kind": '"gibbs"', "MaxStep": "4", "MaxCalls": "3" if quick else "4", "FailSet": '{<<99,"none">>}',
+    consts = {"Kind": '"gibbs"', "MaxStep": "4", "MaxCalls": "3" if quick else "4", "FailSet": '{<<99,"none">>} \\cup {<<k,"J">> : k \\in {1, 4, 7, 10}}',      # transient failures of the spectral density
               "PreSet": "{{}}", "Devs": "{}", "Emit": "TRUE"}
     st = ctx.tlc("Stepper", c14.CFG_STRICT, label="gibbs histories", constants=consts, workers=2)
     rdev = ctx.tlc("Stepper", c14.CFG_PROPS_ONLY, label="deviation GibbsRecompute (must violate)", must_hold=False,
